@@ -106,7 +106,9 @@ def c06(tier, seed):
     stress_sc = [{"scenario": s} for s in ["nq,nq|pa,pa", "nq,nq,nq|pi,pa", "nq,nq|tk|po,po", "nq,nq|cl|pa", "nq,nq,nq,nq|pu,pa", "nq|nq,tk|pa,pk", "nq,nq,nq|po,pi|pa"]]
     return {"models": models, "runner": RUNNER_CQ, "trace_module": "TraceCQ", "scenarios": scen, "corpus": [CORPUS_PB], "extra_runners": [RUNNER_HQ, RUNNER_OQ], "model_defects": SLOT_DEFECTS,
             "stress_runners": STRESS_CQ, "stress_scenarios": stress_sc,
-            "rule": "ConcQueue.tla model-checked over all interleavings of the scenario sets; on the real EventQueue each scenario (producers x consumers "
+            "rule": "ConcQueue.tla and ConcSlots.tla (slot protocol) model-checked over all interleavings of their scenario sets; scenarios = regression list + seeded sample "
+                    "of ConcQueueMC's sets + slot re-use shapes, run on EventQueue, HeterEventQueue and EventQueue with OrderedQueueList (sorted-batch rule); "
+                    "on the real EventQueue each scenario (producers x consumers "
                     "process/processOne/processIf/processUntil/takeEvent/peekEvent/clearEvents) is explored by depth-first schedule enumeration with a "
                     "preemption bound plus seeded random schedules under the controlled scheduler; every execution's API history is validated by "
                     "TraceCQ.tla (ledger, payload, per-producer order, drain, no deadlock, no unlocked structural access); non-trivial = distinct "
@@ -135,7 +137,8 @@ def c07(tier, seed):
     return {"models": models, "runner": RUNNER_CQ, "trace_module": "TraceCQ", "scenarios": scen, "corpus": [CORPUS_D5],
             "model_defects": [{"module": "ConcQueueMC", "cfg": live_cfg([1, 2], "SDqnWaiter", defects=["dqn_unlocked"]), "defect": "dqn_unlocked (liveness form)"}], "extra_runners": [RUNNER_HQ],
             "rule": "ConcQueue.tla (predicate under the mutex, atomic unlock+sleep, notify_one, DisableQueueNotify ctor/dtor steps) model-checked with the "
-                    "NoLostWakeup invariant; with the D5 defect switched on TLC prints the lost wake-up schedule, which is replayed on the real code; "
+                    "NoLostWakeup invariant and, under weak fairness, the liveness property Progress; scenarios = regression list + seeded sample of ConcQueueMC's sets, "
+                    "on EventQueue and (without DisableQueueNotify) HeterEventQueue; with the D5 defect switched on TLC prints the lost wake-up schedule, which is replayed on the real code; "
                     "waiter/producer/DisableQueueNotify scenarios explored on the real EventQueue under the controlled scheduler (dfs with preemption "
                     "bound incl. the window between predicate and blocking, random); TraceCQ.tla: stuck = lost wake-up when an event is surely pending "
                     "and no DisableQueueNotify can be alive, wait returns only if the predicate could have held, waitFor false only after its time-out",
@@ -161,7 +164,8 @@ def c11(tier, seed):
             "model_defects": [{"module": "ConcQueueMC", "cfg": mc_cfg([1, 2], "SOverlap", defects=["guard_restore"]), "defect": "guard_restore"},
                               {"module": "ConcQueueMC", "cfg": mc_cfg([1, 2], "SLastOnly", defects=["guard_if_last"]), "defect": "guard_if_last"}],
             "stress_runners": STRESS_CQ, "stress_scenarios": stress_sc,
-            "rule": "ConcQueue.tla with emptyQueue as two reads and the history variable 'enqueues finished before the call began'; observer scenarios "
+            "rule": "ConcQueue.tla with emptyQueue as two reads and the history variable 'enqueues finished before the call began' (events held by a selective call are "
+                    "outside the promise); scenarios = regression list + seeded sample of ConcQueueMC's sets, on EventQueue and HeterEventQueue; observer scenarios "
                     "(emptyQueue / waitFor time-out against enqueue + process/processOne/takeEvent/clearEvents) explored on the real EventQueue with "
                     "preemption at every atomic operation and unlocked read; TraceCQ.tla demands: true (or time-out with no DisableQueueNotify) implies "
                     "every event enqueued before the call began is completely consumed; the sequential form (observer = listener) is part of C05's cover",
@@ -273,7 +277,7 @@ def c03(tier, seed):
                               {"module": "LazySlotMC", "cfg": lazy_cfg([1, 2], defects=["no_recheck"]), "defect": "no_recheck"},
                               {"module": "ConcDispMC", "cfg": disp_cfg([1, 2], defects=["erase_empty"]), "defect": "erase_empty"},
                               {"module": "ConcDispMC", "cfg": disp_cfg([1, 2], defects=["lookup_unlocked"]), "defect": "lookup_unlocked"}],
-            "rule": "ConcCL.tla (threads x micro-steps of callbacklist.h with the abstract list updated at the linearization points) model-checked over all "
+            "rule": "ConcDisp.tla (dispatcher map), LazySlot.tla (heterogeneous per-prototype lists) and ConcCL.tla (threads x micro-steps of callbacklist.h with the abstract list updated at the linearization points) model-checked over all "
                     "interleavings of the scenario sets; on the real CallbackList and EventDispatcher (std::map and std::unordered_map) every scenario "
                     "(all mixes of append/prepend/insert/remove/ownsHandle/empty/invoke/forEach with shared handles) is explored by depth-first "
                     "schedule enumeration with a preemption bound plus seeded random schedules; TraceCC.tla decides linearizability of results and of "
